@@ -156,6 +156,14 @@ def run(prop, tier, seed, replay=None):
                 cmds.append([os.path.join(BUILD, "clusterdrv"), "-jiva", os.path.join(BUILD, "jiva"), "-work", pd, "-out", out,
                              "-worker", str(i + 1), "-gen", str(per), "-seed", str(seed * 100 + i), "-base", str(i * 101),
                              "-kind", kind])
+        if replay is None and kind == "rebuild":
+            # hand-written histories (an interrupted rebuild, another replica rebuilt meanwhile, ...)
+            pd = os.path.join(work, "pd")
+            os.makedirs(pd)
+            out = os.path.join(work, "td.ndjson")
+            parts.append(out)
+            cmds.append([os.path.join(BUILD, "clusterdrv"), "-jiva", os.path.join(BUILD, "jiva"), "-work", pd, "-out", out,
+                         "-worker", str(nproc + 1), "-in", os.path.join(VERIF, "scenarios", "cluster_directed.ndjson")])
         res = run_parallel(cmds, timeout=600 if quick else 7200)
         for (rc, out), c in zip(res, cmds):
             if rc != 0:
